@@ -186,12 +186,11 @@ def cells(tier):
     quick = tier == "quick"
     out = []
     reg = ["c10.bodylength_unchecked"]
-    for n in ((4, 8) if quick else (4, 8, 12, 14)):
+    for n in ((4, 8, 12) if quick else (4, 8, 12, 14, 16)):
         out.append(Cell(f"raw/{n}", (lambda I, n=n: h_raw(I, n)), dict(buffer=f"{n} arbitrary bytes"),
                         goals=["skip"], regions=reg))
     shapes = [(3, 1, 1, 1, 1), (1, 1, 2, 1, 2), (3, 2, 1, 0, 2)] if quick else \
-        [(3, 1, 1, 1, 1), (3, 2, 1, 0, 3), (1, 1, 2, 1, 2), (3, 2, 2, 1, 3), (3, 3, 1, 1, 3), (0, 2, 1, 2, 3),
-         (3, 1, 2, 2, 3)]
+        [(3, 1, 1, 1, 1), (3, 2, 1, 0, 3), (1, 1, 2, 1, 2), (0, 2, 1, 2, 3), (3, 2, 1, 0, 2), (3, 1, 1, 1, 2), (3, 1, 2, 1, 1)]
     for sh in shapes:
         out.append(Cell("fields/" + "-".join(map(str, sh)), (lambda I, sh=sh: h_fields(I, *sh)),
                         dict(skeleton="8=FIX.<BS>|9=<L>|35=0|<T>=<V>|10=<C>|",
